@@ -372,6 +372,11 @@ def _fill_cli(ctx, tmp):
         S = FT.superset(rng, FT.minimal_sufficient(rng, system), 0.2)
         S = [S[int(j)] for j in rng.permutation(len(S))]
         volumes = numpy.round(numpy.sort(rng.uniform(100, 900, nv))[::-1], int(rng.integers(2, 6)))
+        row_order = ["largest-volume-first", "largest-volume-first", "smallest-volume-first", "unordered"][(i // 9) % 4]
+        if row_order == "smallest-volume-first":
+            volumes = volumes[::-1].copy()
+        elif row_order == "unordered":
+            volumes = volumes[rng.permutation(nv)]
         lattice = numpy.round(rng.uniform(1, 9, size=(nv, 3)), 12) if i % 2 else None
         vref, mass = round(float(rng.uniform(100, 900)), 5), round(float(rng.uniform(20, 400)), 3)
         cols = [(("C%d%d" if i % 3 == 1 else "c%d%d") % T.VOIGT21[s], field[:, s]) for s in S]
@@ -396,7 +401,7 @@ def _fill_cli(ctx, tmp):
         except Exception as exc:
             ctx.harness_error("C17.fill_cli", exc)
             continue
-        ctx.evaluation(f"fill-command|{system}", (system, i, tuple(S)), sample={"system": system, "rows": nv, "supplied": [c[0] for c in cols],
+        ctx.evaluation(f"fill-command|{system}|rows:{row_order}", (system, i, tuple(S)), sample={"system": system, "rows": nv, "supplied": [c[0] for c in cols],
                                                                                 "lattice_block": lattice is not None, "via": "subprocess" if via_subprocess else "CliRunner"})
         data = {"system": system, "file": open(path).read()}
         if rc != 0:
@@ -448,6 +453,10 @@ def _fill_cli(ctx, tmp):
                 break
             if (lattice is None) != (lat is None or len(lat) == 0):
                 bad = f"{tag}: lattice block {'lost' if lattice is not None else 'invented'}"
+                break
+            if lattice is not None and (numpy.shape(lat) != numpy.shape(inp["lattice"]) or
+                                        numpy.abs(numpy.array(lat, float) - numpy.array(inp["lattice"], float)).max() > 1e-9):
+                bad = f"{tag}: lattice block changed (row {numpy.array(lat, float)[0]} vs {numpy.array(inp['lattice'], float)[0]})"
                 break
         if bad:
             ctx.violation("fill-command:parse-differs:" + bad.split(":")[0], f"{system}: {bad}", case_id, data)
